@@ -67,6 +67,7 @@ type envState struct {
 	lockLog  []string
 	envVars  map[string]string
 	b64      map[string]b64Token
+	jwt      *jwtShape
 }
 
 func newEnvState() *envState {
